@@ -1,0 +1,13 @@
+//go:build verif
+
+package common
+
+// Contracts for the verification machinery in /verif (comment-only file; no code).
+
+// ExecuteMsg: stateless validation first, then exactly the router's handler for this message on this context;
+// its error is returned (so the EVM hook fails and ethermint reverts the transaction).
+// verif:func ExecuteMsg
+//@ modifies world(ctx)
+//@ callsite handler [validated-first] ncalls("ValidateBasic") == 1 && callsok("ValidateBasic") && a0 == ctx && a1 == msg
+//@ ensures [routed-once] err == nil ==> ncalls("handler") == 1 && callsok("handler")
+//@ ensures [at-most-once] ncalls("handler") <= 1
